@@ -350,7 +350,16 @@ class Connection(object):
                 raise
             self._send(consts.MSG_EXCEPTION, seq, self._box_exc(t, v, tb))
         else:
-            self._send(consts.MSG_REPLY, seq, self._box(res))
+            try:
+                self._send(consts.MSG_REPLY, seq, self._box(res))
+            except EOFError:
+                raise
+            except Exception:
+                # the result could not be boxed or encoded: the requester gets that exception as its response
+                # (nothing has been transmitted for this request yet), and the connection stays usable
+                t, v, tb = sys.exc_info()
+                self._last_traceback = tb
+                self._send(consts.MSG_EXCEPTION, seq, self._box_exc(t, v, tb))
 
     def _box_exc(self, typ, val, tb):  # dispatch?
         return vinegar.dump(typ, val, tb,
